@@ -42,7 +42,8 @@ func (t *XMPPTransport) Connect() (string, error) {
 
 	// A new connection starts in clear text, whatever the previous one had negotiated
 	t.isSecure = false
-	t.closeChan = make(chan stanza.StreamClosePacket)
+	// One slot: the server's closing tag may be seen by the receive loop before Close() starts waiting for it.
+	t.closeChan = make(chan stanza.StreamClosePacket, 1)
 	t.readWriter = newStreamLogger(t.conn, t.logFile)
 	t.decoder = xml.NewDecoder(bufio.NewReaderSize(t.readWriter, maxPacketSize))
 	t.decoder.CharsetReader = t.Config.CharsetReader
@@ -158,5 +159,10 @@ func (t *XMPPTransport) LogTraffic(logFile io.Writer) {
 }
 
 func (t *XMPPTransport) ReceivedStreamClose() {
-	t.closeChan <- stanza.StreamClosePacket{}
+	// Only Close() waits for this. When the server closes the stream first nobody is
+	// listening, and the receive loop must not block here.
+	select {
+	case t.closeChan <- stanza.StreamClosePacket{}:
+	default:
+	}
 }
